@@ -95,6 +95,15 @@ for dtype in (torch.float64, torch.float32):
         for a in (0.5, 1.0):
             ref = [-math.fsum((math.log(v) if a == 1.0 else v ** (1 - a)) for v in c) / len(c) for c in C]
             if not close(pnn.IsoelasticLoss(a)(x), ref, dtype, max(1.0, max(abs(r) for r in ref))): note("IsoelasticLoss(a=%g) %s" % (a, nm), "got %s ref %s" % (pnn.IsoelasticLoss(a)(x).flatten()[:3].tolist(), ref[:3]), x)
+# large samples with ties (k = ceil(p N) in the thousands; many outcomes equal to the k-th worst one, e.g. an option expiring worthless on most paths)
+for dtype in (torch.float64, torch.float32):
+    for shape in ((6000,), (5000, 2)):
+        x = (torch.randint(-3, 4, shape, generator=g).to(torch.float64) * 0.5).clamp(min=0.0) - 0.25
+        x = x.to(dtype); C = cols(x)
+        for p in (0.1, 0.5, 0.9):
+            ref = [es(c, p) for c in C]
+            if not close(F.expected_shortfall(x, p, dim=0), ref, dtype, 1.0): note("expected_shortfall(p=%g, dim=0) large sample with ties %s %s" % (p, shape, str(dtype)[6:]), "got %s ref %s" % (F.expected_shortfall(x, p, dim=0).flatten()[:3].tolist(), ref[:3]), x[:5])
+            if not close(pnn.ExpectedShortfall(p)(x), ref, dtype, 1.0): note("ExpectedShortfall(p=%g) large sample with ties %s %s" % (p, shape, str(dtype)[6:]), "module", x[:5])
 # heavy losses: the exponential utility / entropic loss must follow exp(-a x) as far as the dtype represents it (float64: a|x| up to 700)
 x = torch.tensor([[-100.0, -60.0], [-300.0, 2.0], [-0.5, -650.0]], dtype=torch.float64)
 ref_u = [-math.exp(-float(v)) for v in x.reshape(-1)]
@@ -125,7 +134,7 @@ def battery_ob(tier, seed):
         return Verdict('proved', 'bounded: real torch battery', time.time() - t0, 'values equal the definitions on the battery', sample={'claim': 'BOUNDED: values vs double-precision references on real torch'})
     return Obligation('RK/values/float-battery[bounded]', 'post', 'pfhedge.nn.functional', check, [PROP], bounded=True,
                       clause='BOUNDED: entropic risk, expected shortfall, extreme-level value at risk, exponential/isoelastic utilities and the four loss modules (with a target) equal their definitions computed with math.fsum on real torch, '
-                             'float32 and float64: N in {1,2,5,40}, trailing shapes (), (3,), (2,2), normal / tied / constant / heavy-tailed samples, magnitudes 1e-6..1e6, columns on levels 0, -2000, 1500, 1e6, heavy losses a|x| up to 650 in float64')
+                             'float32 and float64: N in {1,2,5,40}, trailing shapes (), (3,), (2,2), normal / tied / constant / heavy-tailed samples, magnitudes 1e-6..1e6, columns on levels 0, -2000, 1500, 1e6, heavy losses a|x| up to 650 in float64; expected shortfall on samples of 5000-6000 outcomes with many ties at the k-th worst one')
 
 
 def build(tier, seed):
